@@ -80,16 +80,10 @@ func (d *DAGMutex[T]) Lock(id T) {
 // As with Mutexes, a locked DAGMutex is not associated with a particular goroutine. One goroutine may RLock (Lock) an
 // entity within DAGMutex and then arrange for another goroutine to RUnlock (Unlock) it.
 func (d *DAGMutex[T]) Unlock(id T) {
-	d.Mutex.Lock()
-	mutex := d.unregisterMutex(id)
-	if mutex == nil {
-		d.Mutex.Unlock()
-
-		return
+	// unregisterMutexes releases the internal mutex also when it panics (entity not locked)
+	for _, mutex := range d.unregisterMutexes(id) {
+		mutex.Unlock()
 	}
-	d.Mutex.Unlock()
-
-	mutex.Unlock()
 }
 
 func (d *DAGMutex[T]) registerMutexes(ids ...T) (mutexes []*StarvingMutex) {
